@@ -561,3 +561,20 @@ Theorem C07_pool_double_put_breaks_invariant : forall s k, pool_ok s -> (k >= 1)
   exists s1, pool_send 1 k s = Some s1 /\ ~ NoDup (free s1).
 Proof. exact double_put_aliases_any. Qed.
 Print Assumptions C07_pool_double_put_breaks_invariant.
+
+(* ---- modes that are not inputs: log level, write errors ---- *)
+
+(* the model has no log level: whatever level each send of a history runs at, the wire carries the same frames
+   (tied by running every case kind and every sequence at error / info / debug: `level.*` statistics, `logs` census) *)
+Theorem C07_wire_independent_of_log_level : forall (ls : list log_level) c (h : list step),
+  length ls = length h -> run_at ls c h = run c h.
+Proof. exact wire_independent_of_log_level. Qed.
+Print Assumptions C07_wire_independent_of_log_level.
+
+(* a failing Conn.WriteTo: the error is returned and nothing reaches the wire (no send function retries); a healthy
+   one carries exactly the frames of the call (`wfail` cases) *)
+Theorem C07_write_error_is_returned : forall c (st : step) fr rest,
+  frames_of (emit c st) = fr :: rest ->
+  emit_conn true c st = ([], true) /\ emit_conn false c st = (fr :: rest, false).
+Proof. exact write_error_is_returned. Qed.
+Print Assumptions C07_write_error_is_returned.
